@@ -243,3 +243,43 @@ package semantic
 //@   loop 0 invariant 0 <= $i && $i <= len(s.graphNames) && len(s.graphs) == old(len(s.graphs)) + $i && s.inputGraphs == old(s.inputGraphs) && s.outputGraphs == old(s.outputGraphs) && $driverFailed == old($driverFailed)
 //@   loop 1 invariant 0 <= $i && $i <= len(s.inputGraphNames) && len(s.graphs) == old(len(s.graphs)) + len(s.graphNames) && len(s.inputGraphs) == old(len(s.inputGraphs)) + $i && s.outputGraphs == old(s.outputGraphs) && $driverFailed == old($driverFailed)
 //@   loop 2 invariant 0 <= $i && $i <= len(s.outputGraphNames) && len(s.graphs) == old(len(s.graphs)) + len(s.graphNames) && len(s.inputGraphs) == old(len(s.inputGraphs)) + len(s.inputGraphNames) && len(s.outputGraphs) == old(len(s.outputGraphs)) + $i && $driverFailed == old($driverFailed)
+
+// ---- Hooks: no panic for ANY statement and ANY consumed element (C08) -------------------------
+// The element / clause hooks below are verified for safety only (nil, index, slice, type assertion):
+// whatever the statement looks like and whatever token or symbol they are handed. (The hooks of the
+// WHERE and CONSTRUCT clauses that use the working clause set up by an earlier hook are not in this
+// list: their safety depends on the order in which the grammar fires the hooks.)
+//@ props C08
+//@ func graphAccumulator$1
+//@   opt modifies-everything
+//@ func inputGraphAccumulator$1
+//@   opt modifies-everything
+//@ func outputGraphAccumulator$1
+//@   opt modifies-everything
+//@ func whereNextWorkingClause$1
+//@   opt modifies-everything
+//@ func whereInitWorkingClause$1
+//@   opt modifies-everything
+//@ func whereFilterClause$1
+//@   opt modifies-everything
+//@ func varAccumulator$1
+//@   opt modifies-everything
+//@ func bindingsGraphChecker$1
+//@   opt modifies-everything
+//@ func groupByBindings$1
+//@   opt modifies-everything
+//@ func InitWorkingConstructClause$1
+//@   opt modifies-everything
+//@ func NextWorkingConstructClause$1
+//@   opt modifies-everything
+//@ func ShowClauseHook$1
+//@   opt modifies-everything
+//@ func TypeBindingClauseHook$1
+//@   opt modifies-everything
+// INSERT / DELETE data: the literal builder the hook was created with is never nil.
+//@ func dataAccumulator
+//@   requires b != nil
+//@ func DataAccumulatorHook
+//@ func dataAccumulator$1
+//@   opt modifies-everything
+//@   captures deref(b) != nil
